@@ -9,6 +9,17 @@ HERE = os.path.dirname(os.path.dirname(os.path.abspath(__file__)))
 sys.path.insert(0, HERE)
 
 CLAIMED = {
+    'C11': dict(
+        category='other',
+        text='Inductive argument over one call, decided structurally in both build variants: the configuration is '
+             're-read before logging on every path (no parse-once caching); every field that the configuration-file '
+             'code can write is restored to the value setDefaults assigns, unconditionally, by the destructor (or the '
+             'record is allocated fresh, marked uninitialised, defaulted by the getter and freed per call); the '
+             'pointer/_malloced typestate holds on all paths (flag agrees with value, free only under the flag, no '
+             'overwrite while owned). Hence the state before call k+1 equals a fresh process\'s for every history.',
+        design_ref='DESIGN.md §5 C11',
+        note='The ts-off carry-over defect on the pinned tree was replayed (dlopen harness) and repaired.',
+        technique='static analysis: struct-field write/restore set agreement per build variant + owning-field typestate'),
     'C06': dict(
         category='other',
         text='Decides the "nothing from an earlier call" clause and the wiring: every call stores its own '
